@@ -81,6 +81,26 @@ func (p *Prog) Pkg(rel string) *packages.Package {
 	return p.ByPath[path]
 }
 
+// Excluded reports whether, under this build variant, the package has non-test source
+// files left out by build constraints (e.g. fuse on a non-Linux target, where only the
+// stub file is built). Only used to explain an absent anchor in a non-default variant:
+// the default variant is always strict.
+func (p *Prog) Excluded(rel string) bool {
+	if p.Variant == "default" || p.Variant == "" {
+		return false
+	}
+	pk := p.Pkg(rel)
+	if pk == nil {
+		return false
+	}
+	for _, f := range pk.IgnoredFiles {
+		if strings.HasSuffix(f, ".go") && !strings.HasSuffix(f, "_test.go") {
+			return true
+		}
+	}
+	return false
+}
+
 func (p *Prog) SSAPkg(rel string) *ssa.Package {
 	pk := p.Pkg(rel)
 	if pk == nil {
@@ -346,9 +366,21 @@ func (r *Report) Check(cond bool, rule, key string, pos token.Pos, okmsg, failms
 // Anchor reports an unresolved anchor (a function/field/type the rule table names).
 func (r *Report) Anchor(rule, what string, ok bool) bool {
 	if !ok {
+		if i := strings.Index(what, "."); i > 0 && r.P.Excluded(what[:i]) {
+			r.add(Info, rule, "anchor/"+what, token.NoPos, "anchor %s is not part of the %s build (its file is excluded by a build constraint): the rule is evaluated on the variants that build it", what, r.P.Variant)
+			return false
+		}
 		r.add(Undecided, rule, "anchor/"+what, token.NoPos, "anchor %s not found in the loaded program (renamed or removed): the rule cannot be evaluated", what)
 	}
 	return ok
+}
+
+// SentinelEx is Sentinel with a lower minimum for build variants that exclude the given package's platform files.
+func (r *Report) SentinelEx(rule string, got, min int, pkg string, minExcluded int) {
+	if r.P.Excluded(pkg) {
+		min = minExcluded
+	}
+	r.Sentinel(rule, got, min)
 }
 
 func (r *Report) Sentinel(rule string, got, min int) {
@@ -447,13 +479,11 @@ func finish(res *propResult, spec *PropSpec, tier string, seed int, start time.T
 			k := o.Key
 			if rep.P.Variant != "default" {
 				// same obligation under another build variant: count it separately only if new
-				if seen[k] {
-					// merge: a failure in any variant is a failure
-					if o.Status == "violated" || o.Status == "undecided" {
-						o.Detail = "[" + rep.P.Variant + "] " + o.Detail
-					} else {
-						continue
-					}
+				// merge: a failure in any variant is a failure
+				if o.Status == "violated" || o.Status == "undecided" {
+					o.Detail = "[" + rep.P.Variant + "] " + o.Detail
+				} else if seen[k] {
+					continue
 				}
 			}
 			seen[k] = true
